@@ -1606,7 +1606,10 @@ class _Stepper:
 
 
 def _run_recorder(scn: dict):
-    """scn = {"keep_open": bool, "schedule": [ ["W", n] | ["rec", d, [vals]] | ["attr", d, k, v] | ["close"] ]}
+    """scn = {"keep_open": bool, "schedule": [ ["W", n] | ["rec", d, [vals]] | ["recbuf", d, [vals], buf, off] |
+    ["mut", buf] | ["attr", d, k, v] | ["close"] ]}
+    `recbuf`: the caller fills a slice of one of its own reusable ndarrays (a ring buffer) and passes that VIEW to
+    record(); `mut`: the caller overwrites that whole buffer afterwards.  record() must have taken a snapshot.
     Returns dict(lines, outs, file, recorded, attrs_expected, error)."""
     import h5py
     import numpy as np
@@ -1636,6 +1639,7 @@ def _run_recorder(scn: dict):
                 st.cv.notify_all()
 
     lines, outs = ["r init"], ["ok"]
+    buffers = {b: np.zeros(8, dtype=np.int64) for b in range(3)}
     recorded: dict = {}
     attrs_exp: dict = {}
     result = {"error": None}
@@ -1680,7 +1684,15 @@ def _run_recorder(scn: dict):
                         drain_events()
                         if not alive:
                             break
-                elif item[0] in ("rec", "attr"):
+                elif item[0] == "mut":
+                    buffers[item[1]][:] = -7          # the caller reuses its buffer; no recorder call
+                    if thread._condition._lock.locked():
+                        lines.append("r mut!")        # writer half-way through its swap: dictionaries not comparable
+                        outs.append("ok")
+                    else:
+                        lines.append("r mut")
+                        outs.append(st.state_line())
+                elif item[0] in ("rec", "recbuf", "attr"):
                     # a client call takes the condition lock: let the writer leave its critical section first
                     guard = 0
                     while thread._condition._lock.locked() and st.step():
@@ -1688,7 +1700,14 @@ def _run_recorder(scn: dict):
                         guard += 1
                         if guard > 2000:
                             raise _Hang("writer never releases the lock")
-                    if item[0] == "rec":
+                    if item[0] == "recbuf":
+                        _, d, vals, b, off = item
+                        view = buffers[b][off:off + len(vals)]
+                        view[:] = vals
+                        rec.record(f"d{d}", view)
+                        recorded.setdefault(d, []).extend(vals)
+                        lines.append(f"r rec {d} " + (",".join(map(str, vals)) or "-"))
+                    elif item[0] == "rec":
                         _, d, vals = item
                         rec.record(f"d{d}", np.array(vals, dtype=np.int64))
                         recorded.setdefault(d, []).extend(vals)
@@ -1907,7 +1926,13 @@ def _gen_rec_schedule(rng, serial_base=100):
             sched.append(["W", rng.choice([0, 0, 1, 2, rng.randint(0, wmax), rng.randint(0, wmax)])])
         if rng.random() < 0.72:
             n = rng.choice([0, 1, 1, 2, 3])
-            sched.append(["rec", rng.choice([0, 0, 1, 2]), list(range(tag, tag + n))])
+            if rng.random() < 0.45:     # through a reused caller-side buffer (view of a ring buffer)
+                sched.append(["recbuf", rng.choice([0, 0, 1, 2]), list(range(tag, tag + n)), rng.choice([0, 0, 1]), rng.choice([0, 0, 2, 5])])
+                if rng.random() < 0.5:
+                    sched.append(["W", rng.choice([0, 1, rng.randint(0, wmax)])])
+                    sched.append(["mut", sched[-2][3]])
+            else:
+                sched.append(["rec", rng.choice([0, 0, 1, 2]), list(range(tag, tag + n))])
             tag += n
         else:
             sched.append(["attr", rng.choice([0, 0, 1, 3]), rng.choice([0, 1]), rng.randint(0, 99)])
@@ -1922,6 +1947,11 @@ def _sweep_rec_schedules(kmax: int, stride: int = 1):
     out = []
     for keep in (False, True):
         for k in range(0, kmax, stride):
+            # the caller's buffer is overwritten / refilled and recorded again k writer lines after record() returned
+            out.append({"keep_open": keep, "schedule": [["recbuf", 0, [10, 11], 0, 0], ["W", k], ["mut", 0], ["W", 3],
+                                                        ["recbuf", 0, [40], 0, 1], ["close"]]})
+            out.append({"keep_open": keep, "schedule": [["recbuf", 0, [10, 11], 0, 0], ["W", k], ["recbuf", 0, [20, 21], 0, 0], ["W", 2],
+                                                        ["recbuf", 1, [30, 31], 0, 1], ["mut", 0], ["close"]]})
             for second in (["rec", 0, [20, 21]], ["rec", 1, [30]], ["attr", 0, 1, 7], None):
                 sched = [["attr", 0, 0, 5], ["rec", 0, [10, 11]], ["W", k]]
                 if second is not None:
@@ -1989,6 +2019,8 @@ def _section_recorder(ctx: Ctx, res: Result, n_random: int, use_model=True, kmax
         res.count("rec_flush_cycles", nsw)
         res.count("rec_scenarios_client_call_between_swap_and_flush",
                   1 if any(a == "r swap" and b.startswith(("r rec", "r attr")) for a, b in zip(r["lines"], r["lines"][1:])) else 0)
+        res.count("rec_scenarios_caller_buffer_overwritten_or_reused",
+                  1 if any(it[0] == "mut" for it in scn["schedule"]) or sum(1 for it in scn["schedule"] if it[0] == "recbuf") > 1 else 0)
         res.count("rec_scenarios_close_during_flush",
                   1 if any(a == "r swap" and b.startswith("r shutdown") for a, b in zip(r["lines"], r["lines"][1:])) else 0)
         if i in (5, len(scns) - 1):
